@@ -3,7 +3,7 @@
 // Op line:  wreg <order-seed> <step,step,...>      tbtc walletRegistry (pkg/tbtc/registry.go)
 //           greg <order-seed> <step,step,...>      beacon group registry (pkg/beacon/registry)
 //
-//	R<w><i><s>[f]  register signer/membership: wallet/group w (1-3), member index i (1-4), key
+//	R<w><i><s>[f]  register signer/membership: wallet/group w (1-4; wallet 4 is -P of wallet 1), member index i (1-4), key
 //	               material s (0-4 = fixture share); storage fault f on the Save:
 //	               b fails before writing, a fails after writing (torn), B process dies before
 //	               writing, A process dies after writing (then restart); i (wreg) the wallet-ID
@@ -175,7 +175,7 @@ var (
 	fixShares  []*tecdsa.PrivateKeyShare
 	fixBytes   [][]byte
 	fixErr     error
-	walletPubs [4]*ecdsa.PublicKey // 1..3
+	walletPubs [5]*ecdsa.PublicKey // 1..4; 4 = -P1 (same X coordinate as wallet 1)
 	operators  = []chain.Address{"address-1", "address-2", "address-3", "address-3", "address-5"}
 )
 
@@ -212,6 +212,8 @@ func loadFixtures() {
 		x, y := tecdsa.Curve.ScalarBaseMult(big.NewInt(int64(w + 10)).Bytes())
 		walletPubs[w] = &ecdsa.PublicKey{Curve: tecdsa.Curve, X: x, Y: y}
 	}
+	negY := new(big.Int).Sub(tecdsa.Curve.Params().P, walletPubs[1].Y)
+	walletPubs[4] = &ecdsa.PublicKey{Curve: tecdsa.Curve, X: new(big.Int).Set(walletPubs[1].X), Y: negY}
 }
 
 func walletID(pk *ecdsa.PublicKey) [32]byte {
@@ -258,7 +260,7 @@ func (r *wrig) snapshot() (out string) {
 	bad := ""
 	odd := false
 	keys := r.reg.GetWalletsPublicKeys()
-	for w := 1; w <= 3; w++ {
+	for w := 1; w <= 4; w++ {
 		pk := walletPubs[w]
 		signers := r.reg.GetSigners(pk)
 		var ss []string
@@ -365,7 +367,7 @@ func execWreg(f []string) (string, string) {
 			}
 		case st[0] == 'R' && (len(st) == 4 || len(st) == 5):
 			w, i, s := int(st[1]-'0'), int(st[2]-'0'), int(st[3]-'0')
-			if w < 1 || w > 3 || i < 1 || i > 9 || s < 0 || s > 4 {
+			if w < 1 || w > 4 || i < 1 || i > 9 || s < 0 || s > 4 {
 				return "bad-op", "bad"
 			}
 			fault := ""
@@ -410,7 +412,7 @@ func execWreg(f []string) (string, string) {
 			}
 		case st[0] == 'X' && (len(st) == 2 || len(st) == 3):
 			w := int(st[1] - '0')
-			if w < 1 || w > 3 {
+			if w < 1 || w > 4 {
 				return "bad-op", "bad"
 			}
 			fault := ""
@@ -481,10 +483,13 @@ func genSteps(r *hx.Rng, family string) string {
 	if r.Chance(1, 8) {
 		ln = r.Range(12, 30)
 	}
-	nw := r.Range(1, 3)
+	nw := r.Range(1, 4)
 	var steps []string
 	for j := 0; j < ln; j++ {
 		w := r.Range(1, nw)
+		if nw == 4 && r.Chance(1, 2) {
+			w = hx.Pick(r, []int{1, 4}) // the pair of wallets whose public keys share the X coordinate
+		}
 		switch r.Intn(12) {
 		case 0, 1, 2, 3, 4, 5:
 			f := ""
